@@ -2286,6 +2286,16 @@ impl<'i, R: XmlRead<'i>, E: EntityResolver> XmlReader<'i, R, E> {
     /// [`CData`]: PayloadEvent::CData
     fn drain_text(&mut self, mut result: Cow<'i, str>) -> Result<DeEvent<'i>, DeError> {
         loop {
+            // DOCTYPE between text pieces does not split the text (as comments
+            // and processing instructions), but still should be captured
+            if let Ok(PayloadEvent::DocType(_)) = self.lookahead {
+                if let PayloadEvent::DocType(e) = self.next_impl()? {
+                    self.entity_resolver
+                        .capture(e)
+                        .map_err(|err| DeError::Custom(format!("cannot parse DTD: {}", err)))?;
+                }
+                continue;
+            }
             if self.current_event_is_last_text() {
                 break;
             }
